@@ -398,12 +398,8 @@ func (o OrderedCollection) Equals(with Item) bool {
 			}
 			return nil
 		})
-		if w.OrderedItems != nil {
-			if !o.OrderedItems.Equals(w.OrderedItems) {
-				result = false
-				return nil
-			}
-		}
+		// the members are compared by the collection comparison above (the ordered items are the items of the
+		// collection view): comparing them here again doubled the work at every level of nested collections
 		return nil
 	})
 	if err != nil {
